@@ -20,7 +20,7 @@ use crate::prng::Rng;
 
 pub struct ThreadsWorld;
 
-pub const KINDS: &[&str] = &["call", "post", "poll", "freeze"];
+pub const KINDS: &[&str] = &["call", "post", "poll", "freeze", "badcall"];
 
 const MAX_THREADS: usize = 6;
 /// Per-thread cap on hook events (a thread makes at most 8 calls of at most
@@ -94,6 +94,7 @@ enum Note {
     CallEnd { tid: usize, kind: u64, base: u64, voucher_ok: bool, flag: bool, ev: usize, gstep: u64 },
     Panic { tid: usize, msg: String },
     Overrun { tid: usize },
+    BadCall { tid: usize, panicked: bool },
 }
 
 struct Core {
@@ -420,6 +421,27 @@ impl SyncHooks for Hooks {
         let tid = TID.with(|t| t.get());
         step(tid, Pending::Unlock { addr });
     }
+    fn mutex_unlock_unwinding(&self, addr: usize) {
+        // A simulated thread releases the lock while unwinding from a panic
+        // of the code under test (e.g. the documented voucher assertion).  The
+        // thread holds the baton; release the modelled lock without a
+        // scheduling point, and never block or panic here.
+        let tid = TID.with(|t| t.get());
+        if tid == usize::MAX {
+            return;
+        }
+        let mut g = core();
+        if g.abort || g.mutex_owner.get(&addr).copied().flatten() != Some(tid) {
+            return;
+        }
+        g.mutex_owner.insert(addr, None);
+        let v = g.threads[tid].view.clone();
+        g.mutex_view.insert(addr, v);
+        g.gev += 1;
+        let gev = g.gev;
+        g.threads[tid].events.push(Ev::Unlock);
+        g.threads[tid].at.push(gev);
+    }
 }
 
 pub static HOOKS: Hooks = Hooks;
@@ -429,10 +451,26 @@ pub fn register_hooks() {
     ONCE.call_once(|| vouched_time::verif_seams::register_sync_hooks(&HOOKS));
 }
 
+const NFS_FILES_N: usize = 3;
+static NFS_FILES: Mutex<Vec<std::fs::File>> = Mutex::new(Vec::new());
+
+fn nfs_active() -> bool {
+    !NFS_FILES.lock().map(|g| g.is_empty()).unwrap_or(true)
+}
+
+fn nfs_file(slot: usize) -> std::fs::File {
+    NFS_FILES.lock().expect("harness: nfs files")[slot].try_clone().expect("harness: dup")
+}
+
 /// Base time value for argument `arg` of a call (unique per argument, so a
 /// returned pair identifies its update).
 fn base_of(arg: u64) -> u64 {
-    1_000 + arg * 10
+    if arg < (1 << 40) {
+        1_000 + arg * 10
+    } else {
+        // Raw value: the whole 64-bit range is legal for a base time.
+        arg
+    }
 }
 
 fn thread_body(tid: usize, abt: &AtomicBaseTime, program: Vec<Op>) {
@@ -442,8 +480,14 @@ fn thread_body(tid: usize, abt: &AtomicBaseTime, program: Vec<Op>) {
         for op in &program {
             match op.k {
                 "call" => {
-                    let kind = op.a[1] % 3;
+                    let kind = if nfs_active() { op.a[1] % 8 } else { op.a[1] % 3 };
                     let arg = op.a[2];
+                    if kind == 7 {
+                        // Harness step (no scheduling point): time passes, a file changes.
+                        crate::w_vtime::nfs_advance([1i128, 500, 1_001, 1_994, 3_000, 60_000][(arg % 6) as usize]);
+                        crate::w_vtime::nfs_write((arg / 6) as usize % NFS_FILES_N);
+                        continue;
+                    }
                     {
                         let mut g = core();
                         let seq_floor = if g.msgs.len() > SEQ_LOC {
@@ -470,15 +514,58 @@ fn thread_body(tid: usize, abt: &AtomicBaseTime, program: Vec<Op>) {
                             abt.update((base_of(arg), VOUCH.vouch(base_of(arg))));
                             (base_of(arg), true, true)
                         }
-                        _ => {
+                        2 => {
                             let ok = abt.try_update((base_of(arg), VOUCH.vouch(base_of(arg))));
                             (base_of(arg), true, ok)
                         }
+                        3 => {
+                            let f = nfs_file(arg as usize % NFS_FILES_N);
+                            match vouched_time::nfs_voucher::observe_file_time(&f) {
+                                Ok((_, Some((b, v)))) => (b, VOUCH.checking_parameters().check(b, v), true),
+                                Ok((_, None)) => (0, true, false),
+                                Err(_) => (0, true, false),
+                            }
+                        }
+                        4 => {
+                            let ok = vouched_time::nfs_voucher::scan_base_time().is_ok();
+                            (0, true, ok)
+                        }
+                        5 => {
+                            let (b, v) = vouched_time::nfs_voucher::get_base_time_unlocked(crate::w_vtime::nfs_now()).expect("unlocked never fails");
+                            (b, VOUCH.checking_parameters().check(b, v), false)
+                        }
+                        _ => match vouched_time::nfs_voucher::get_base_time(crate::w_vtime::nfs_now()) {
+                            Ok((b, v)) => (b, VOUCH.checking_parameters().check(b, v), true),
+                            Err(_) => (0, true, false),
+                        },
                     };
                     let mut g = core();
                     let ev = g.threads[tid].events.len();
                     let gstep = g.gstep;
                     g.notes.push(Note::CallEnd { tid, kind, base, voucher_ok, flag, ev, gstep });
+                }
+                "badcall" => {
+                    // Caller error: an update whose voucher does not match.  The
+                    // documented outcome is a panic (or nothing, if the monotonic
+                    // filter drops it first); whatever happens, the cell must keep
+                    // working for everybody else afterwards.
+                    let b = base_of(op.a[2]);
+                    let r = std::panic::catch_unwind(std::panic::AssertUnwindSafe(|| {
+                        if op.a[1] % 2 == 0 {
+                            abt.update((b, VOUCH.vouch(b ^ 1)));
+                        } else {
+                            let _ = abt.try_update((b, VOUCH.vouch(b ^ 1)));
+                        }
+                    }));
+                    match r {
+                        Ok(()) => note(Note::BadCall { tid, panicked: false }),
+                        Err(e) => {
+                            if e.downcast_ref::<AbortRun>().is_some() {
+                                std::panic::resume_unwind(e);
+                            }
+                            note(Note::BadCall { tid, panicked: true });
+                        }
+                    }
                 }
                 "post" => {
                     step(tid, Pending::Store { addr: FLAG_BASE + (op.a[1] % 4) as usize, val: 1, order: Ordering::Release });
@@ -666,6 +753,12 @@ fn judge(plan: &Plan, r: &RunResult, stats: &mut Stats, log: &mut LogHash) -> Ve
         if let Note::Overrun { tid } = n {
             push_v(&mut vs, "C18", "C18.unbounded_steps", format!("thread {} took more than {} steps without finishing its calls", tid, STEP_CAP));
             push_v(&mut vs, "C13", "C13.step_overrun", format!("thread {} took more than {} steps without finishing its calls", tid, STEP_CAP));
+        }
+    }
+
+    for n in &r.notes {
+        if let Note::BadCall { panicked, .. } = n {
+            stats.bump(if *panicked { "fault.update_with_wrong_voucher_panicked" } else { "fault.update_with_wrong_voucher_dropped" });
         }
     }
 
@@ -926,8 +1019,11 @@ impl World for ThreadsWorld {
             ops.push(Op::new("call", [nw as u64 + 1, 2, offered, 0]));
             return Plan { world: "threads", mode: if two { "stall-2".into() } else { "stall-1".into() }, seed, index, knobs, ops };
         }
-        let nw = rng.range(1, 2) as usize;
-        let nr = rng.range(1, 2) as usize;
+        let (nw, nr) = if ask.thorough && rng.chance(1, 3) {
+            (rng.range(1, 3) as usize, rng.range(1, 3) as usize)
+        } else {
+            (rng.range(1, 2) as usize, rng.range(1, 2) as usize)
+        };
         let nthreads = nw + nr;
         knobs.insert("threads".into(), nthreads as u64);
         for w in 0..nw {
@@ -941,12 +1037,21 @@ impl World for ThreadsWorld {
                         next_arg += 10_000 + rng.below(100_000);
                         next_arg - 1
                     }
+                    2 if rng.chance(1, 2) => {
+                        // Anywhere in the 64-bit range (saturated change times end up at u64::MAX).
+                        *rng.pick(&[1u64 << 62, 1 << 63, (1 << 63) + 5, u64::MAX - 1_000, u64::MAX - 1, u64::MAX])
+                    }
                     _ => {
                         next_arg += 1;
                         next_arg - 1
                     }
                 };
                 ops.push(Op::new("call", [w as u64, kind, arg, 0]));
+                if rng.chance(1, 12) {
+                    // A caller error in between: wrong voucher, any magnitude.
+                    let bad = if rng.chance(1, 2) { next_arg + 3 } else { *rng.pick(&[1u64 << 50, 1 << 62, u64::MAX - 7]) };
+                    ops.push(Op::new("badcall", [w as u64, rng.below(2), bad, 0]));
+                }
                 if rng.chance(1, 3) {
                     ops.push(Op::new("post", [w as u64, rng.below(2), 0, 0]));
                 }
@@ -1115,4 +1220,245 @@ pub fn plain_threads_scenario(seed: u64) -> i32 {
     let _ = max_base;
     println!("DONE plain-threads seed={} final={}", seed, b);
     if bad > 0 { 1 } else { 0 }
+}
+
+// ---------------------------------------------------------------------------
+// World `nfsthreads`: the nfs_voucher module functions (which funnel into one
+// static AtomicBaseTime) called from several simulated threads, with the V
+// world's simulated clock and file server.  One OS process per history.
+// Serves C18 (get_base_time_unlocked and observe_file_time never wait for a
+// writer stalled inside a blocking scan) and C19 (the base time never
+// decreases when observers and scanners overlap).
+// ---------------------------------------------------------------------------
+
+pub struct NfsThreadsWorld;
+
+fn judge_nfs(plan: &Plan, r: &RunResult, stats: &mut Stats, log: &mut LogHash) -> Vec<Violation> {
+    let mut vs = Vec::new();
+    let sc = plan.knob("sc") != 0;
+    for n in &r.notes {
+        match n {
+            Note::Panic { tid, msg } => {
+                push_v(&mut vs, "C19", "C19.panic", format!("thread {} panicked in an nfs_voucher call: {}", tid, msg));
+                if r.threads[*tid].3 {
+                    push_v(&mut vs, "C18", "C18.panic", format!("solo thread {} panicked: {}", tid, msg));
+                }
+            }
+            Note::Overrun { tid } => {
+                push_v(&mut vs, "C18", "C18.unbounded_steps", format!("thread {} took more than {} steps without finishing its calls", tid, STEP_CAP));
+            }
+            _ => {}
+        }
+    }
+    for b in &r.blocked {
+        if r.threads[*b].3 {
+            push_v(&mut vs, "C18", "C18.blocked", format!("thread {} run alone after a scanner stalled could not finish: it waits for the writer lock", b));
+        }
+    }
+    // Committed updates in sequence order: (sequence value, base stored just before).
+    let mut commits: Vec<(u64, u64)> = Vec::new();
+    for t in &r.threads {
+        let evs = &t.1;
+        for (j, e) in evs.iter().enumerate() {
+            if let Ev::Store { loc, val } = e {
+                if *loc == SEQ_LOC && j >= 2 {
+                    if let Ev::Store { val: base, .. } = &evs[j - 2] {
+                        commits.push((*val, *base));
+                    }
+                }
+            }
+        }
+    }
+    commits.sort();
+    for w in commits.windows(2) {
+        if w[1].1 < w[0].1 {
+            push_v(&mut vs, "C19", "C19.concurrent_decrease", format!("update #{} stored base {} over base {} of update #{}", w[1].0, w[1].1, w[0].1, w[0].0));
+        }
+    }
+    if commits.len() >= 2 {
+        stats.bump("probe.two_or_more_updates_committed");
+    }
+    // Per call checks.
+    let mut open: BTreeMap<usize, (u64, usize)> = BTreeMap::new();
+    let mut last_seen: BTreeMap<usize, u64> = BTreeMap::new();
+    for n in &r.notes {
+        match n {
+            Note::CallStart { tid, kind, ev, .. } => {
+                open.insert(*tid, (*kind, *ev));
+            }
+            Note::CallEnd { tid, kind, base, voucher_ok, ev, .. } => {
+                let Some((_, ev0)) = open.remove(tid) else { continue };
+                let evs = &r.threads[*tid].1[ev0..*ev];
+                let loads = evs.iter().filter(|e| matches!(e, Ev::Load { .. })).count();
+                let locks = evs.iter().filter(|e| matches!(e, Ev::Lock { .. } | Ev::Unlock)).count();
+                let blocking = evs.iter().any(|e| matches!(e, Ev::Lock { blocking: true, .. }));
+                log.u64(*kind);
+                log.u64(*base);
+                if !voucher_ok {
+                    push_v(&mut vs, "C19", "C19.bad_voucher", format!("call kind {} returned base {} with a voucher for another value", kind, base));
+                }
+                match kind {
+                    5 => {
+                        if locks > 0 {
+                            push_v(&mut vs, "C18", "C18.reader_locks", format!("get_base_time_unlocked performed {} lock operation(s)", locks));
+                        }
+                        if r.threads[*tid].3 && sc && loads != 4 {
+                            push_v(&mut vs, "C18", "C18.solo_steps", format!("get_base_time_unlocked run alone took {} atomic loads instead of 4", loads));
+                        }
+                        let prev = last_seen.get(tid).copied().unwrap_or(0);
+                        if *base < prev {
+                            push_v(&mut vs, "C19", "C19.went_backwards", format!("thread {} read base {} after having read {}", tid, base, prev));
+                        }
+                        last_seen.insert(*tid, prev.max(*base));
+                        if r.threads[*tid].3 {
+                            stats.bump("probe.solo_unlocked_read_checked");
+                        }
+                    }
+                    3 => {
+                        if blocking {
+                            push_v(&mut vs, "C18", "C18.observe_blocks", "observe_file_time used a blocking lock operation".into());
+                        }
+                        if r.threads[*tid].3 {
+                            stats.bump("probe.solo_observe_checked");
+                        }
+                    }
+                    _ => {}
+                }
+            }
+            _ => {}
+        }
+    }
+    vs
+}
+
+impl World for NfsThreadsWorld {
+    fn name(&self) -> &'static str {
+        "nfsthreads"
+    }
+    fn kinds(&self) -> &'static [&'static str] {
+        KINDS
+    }
+    fn serves(&self) -> &'static [&'static str] {
+        &["C18", "C19"]
+    }
+    fn runs(&self, ask: Ask) -> u64 {
+        if ask.thorough {
+            300_000
+        } else {
+            12_000
+        }
+    }
+    fn process_per_run(&self) -> bool {
+        true
+    }
+    fn components(&self) -> (Vec<&'static str>, Vec<&'static str>) {
+        (
+            vec!["vouched_time::nfs_voucher (observe_file_time, scan_base_time, get_base_time, get_base_time_unlocked, should_refresh_base_time) on real OS threads", "the static AtomicBaseTime they share"],
+            vec!["atomics and writer mutex of the static cell (hook H3a, baton scheduler + view memory model)", "wall clock, st_dev and ctime (hooks H3b/H3c)"],
+        )
+    }
+    fn rule(&self) -> &'static str {
+        "one run = one fresh OS process: a trusted path is registered, then 2-4 simulated threads call observe_file_time / scan_base_time / get_base_time / get_base_time_unlocked while time passes and files change; in stall plans a scanner is frozen forever at its k-th step (enumerated by run index) and a get_base_time_unlocked thread and an observe_file_time thread then run alone; non-trivial = at least 2 threads took steps and 12 hook events; distinct = distinct (mode, call-kind sequence, stall point)"
+    }
+    fn generate(&self, seed: u64, index: u64, ask: Ask) -> Plan {
+        let mut rng = Rng::new(crate::prng::mix(&[seed, 0x6f5, index]));
+        let mut knobs = std::collections::BTreeMap::new();
+        let mut ops = Vec::new();
+        knobs.insert("sched_seed".into(), rng.next() >> 1);
+        let policy = rng.below(5);
+        knobs.insert("policy".into(), policy);
+        if policy == 1 {
+            knobs.insert("pct_d".into(), rng.range(1, 3));
+        }
+        if ask.prop == "C18" {
+            knobs.insert("sc".into(), rng.chance(3, 4) as u64);
+            knobs.insert("threads".into(), 3);
+            knobs.insert("solo_mask".into(), 0b110);
+            // Scanner: time passes (so that a refresh is due), then a blocking scan.
+            ops.push(Op::new("call", [0, 7, 2 + rng.below(4), 0]));
+            ops.push(Op::new("call", [0, if rng.chance(3, 4) { 4 } else { 6 }, 0, 0]));
+            // should_refresh's snapshot: 4 steps; update: 8 steps.
+            ops.push(Op::new("freeze", [0, 1 + index % 13, 0, 0]));
+            ops.push(Op::new("call", [1, 5, 0, 0]));
+            if rng.chance(1, 2) {
+                ops.push(Op::new("call", [1, 5, 0, 0]));
+            }
+            ops.push(Op::new("call", [2, 7, rng.below(36), 0]));
+            ops.push(Op::new("call", [2, 3, rng.below(3), 0]));
+            return Plan { world: "nfsthreads", mode: "stall".into(), seed, index, knobs, ops };
+        }
+        knobs.insert("sc".into(), rng.chance(1, 3) as u64);
+        let nthreads = rng.range(2, 4);
+        knobs.insert("threads".into(), nthreads);
+        for t in 0..nthreads {
+            for _ in 0..rng.range(1, 4) {
+                let kind = *rng.pick(&[3u64, 3, 4, 5, 5, 6, 7, 7]);
+                ops.push(Op::new("call", [t, kind, rng.below(36), 0]));
+            }
+        }
+        Plan { world: "nfsthreads", mode: if knobs["sc"] != 0 { "sc".into() } else { "mm".into() }, seed, index, knobs, ops }
+    }
+    fn execute(&self, plan: &Plan, stats: &mut Stats) -> Outcome {
+        let mut log = LogHash::new();
+        // Fixture: files 0 and 1 on a device that is trusted, file 2 on another one.
+        let fx = crate::w_vtime::nfs_fixture(NFS_FILES_N, &[0, 0, 1], 1_700_000_000_000);
+        let trusted = vouched_time::nfs_voucher::add_trusted_path(fx.paths[0].clone());
+        {
+            let mut g = NFS_FILES.lock().expect("harness: nfs files");
+            g.clear();
+            for f in &fx.files {
+                g.push(f.try_clone().expect("harness: dup"));
+            }
+        }
+        let mut violations = Vec::new();
+        if let Err(e) = trusted {
+            violations.push(Violation { prop: "C19", inv: "C19.trust_failed".into(), detail: format!("add_trusted_path failed: {}", e), at_op: 0, key: String::new() });
+        }
+        let r = run_plan(plan);
+        violations.extend(judge_nfs(plan, &r, stats, &mut log));
+        let mut total_events = 0usize;
+        let mut active = 0;
+        for (i, (status, events, steps, _, _)) in r.threads.iter().enumerate() {
+            log.u64(*steps as u64);
+            for e in events {
+                match e {
+                    Ev::Load { loc, val, ts, .. } => {
+                        log.u64(1 + *loc as u64 * 8);
+                        log.u64(*val);
+                        log.u64(*ts as u64);
+                    }
+                    Ev::Store { loc, val } => {
+                        log.u64(2 + *loc as u64 * 8);
+                        log.u64(*val);
+                    }
+                    Ev::Lock { ok, blocking } => log.u64(3 + *ok as u64 * 2 + *blocking as u64),
+                    Ev::Unlock => log.u64(9),
+                }
+            }
+            total_events += events.len();
+            if !events.is_empty() {
+                active += 1;
+            }
+            if *status == Status::Frozen {
+                stats.bump("fault.scanner_stalled_forever");
+                if r.mutex_held_by == Some(i) {
+                    stats.bump("fault.scanner_stalled_holding_lock");
+                }
+            }
+        }
+        stats.ops_executed += total_events as u64;
+        stats.add("probe.stale_reads_served", r.stale_reads);
+        let mut sig = LogHash::new();
+        sig.u64(plan.knob("policy"));
+        sig.u64(plan.knob("sc"));
+        sig.u64(r.seq_stores.len() as u64);
+        sig.u64(r.handoffs.min(24));
+        for t in &r.threads {
+            sig.u64(t.1.len().min(30) as u64);
+        }
+        stats.state(sig.0);
+        let _ = std::fs::remove_dir_all(&fx.dir);
+        log.u64(violations.len() as u64);
+        Outcome { violations, log_hash: log.0, nontrivial: active >= 2 && total_events >= 12 }
+    }
 }
